@@ -177,7 +177,7 @@ def run(sh):
     if sh.tier == "thorough" and "asan" in sh.bins:
         import time
         t_end = time.monotonic() + 240
-        w = sh.worker("asan", env={"ASAN_OPTIONS": "detect_leaks=0:halt_on_error=1:abort_on_error=1"}, timeout=60)
+        w = sh.worker("asan", env={"ASAN_OPTIONS": "detect_leaks=0:halt_on_error=1:abort_on_error=1"}, timeout=60, mem_gb=0)
         while time.monotonic() < t_end:
             specs = []
             for _ in range(32):
